@@ -84,6 +84,9 @@ func (f *Frame) evalModItems(env *Env, exprs []ast.Expr) (items []modItem) {
 			case "fields":
 				v := env.eval(x.Args[0])
 				items = append(items, f.allFieldItems(env, v, x)...)
+			case "regionid":
+				v := env.eval(x.Args[0])
+				items = append(items, modItem{kind: "region", heaps: e.memHeaps(types.Typ[types.Uint8]), ref: v.C[0]})
 			default:
 				env.fail(x, "bad modifies item")
 			}
@@ -365,6 +368,11 @@ func (f *Frame) execCall(in ssa.Instruction, c *ssa.CallCommon, reach string, st
 		args = append(args, fnv)
 	} else {
 		fnv = f.val(c.Value)
+	}
+	if strings.HasPrefix(key, "field:") {
+		if ow, ok := f.fieldOwner(c.Value); ok {
+			args = append(args, ow)
+		}
 	}
 	for _, a := range c.Args {
 		args = append(args, f.val(a))
@@ -1014,4 +1022,15 @@ func (f *Frame) doCopy(dst, srcv Val, reach string, st *State) Val {
 	}
 	f.bulkWrite(st, reach, sl.Elem(), dst.C[0], base, dst.C[1], src, srcStart, nn)
 	return Val{T: types.Typ[types.Int], C: []string{nn}}
+}
+
+// fieldOwner: for a call through `x.f(...)` where f is a func-typed field,
+// the struct pointer x.
+func (f *Frame) fieldOwner(v ssa.Value) (Val, bool) {
+	if u, ok := v.(*ssa.UnOp); ok && u.Op == token.MUL {
+		if fa, ok := u.X.(*ssa.FieldAddr); ok {
+			return f.val(fa.X), true
+		}
+	}
+	return Val{}, false
 }
